@@ -33,7 +33,17 @@ EXTENDS Integers, Sequences, FiniteSets, TLC
 CONSTANTS Threads, Objs,
           Budget,        \* Budget[t]: number of library calls thread t may make
           ClaimFirst,
-          TrackRounds    \* maintain the round ghosts of C06 (multiplies the state space)
+          TrackRounds,   \* maintain the round ghosts of C06 (multiplies the state space)
+          InitPaused,    \* threads that start paused (thread start = qsbr_resume)
+          \* protections of the design, TRUE in the faithful model; each FALSE variant is a
+          \* plausible slip whose TLC counterexample is replayed on the real code (killer schedule)
+          OrphanModeFromClaimWord,        \* orphan handling decides single-thread mode from the word
+                                          \* returned by the claiming fetch_sub, not from the earlier load
+          UnregInProgressKeepsIntervals,  \* a thread leaving during another thread's epoch change orphans
+                                          \* its two request sets as they are (no interval rotation)
+          UnregAdvancesBySeenEpoch        \* a leaving thread rotates its request sets only if it has not
+                                          \* seen the current epoch (last_seen_epoch), not by its
+                                          \* quiescent-state epoch
 
 VARIABLES st, orphP, orphC,           \* shared
           pc, loc,                    \* per thread control state and locals
@@ -58,12 +68,12 @@ InitLoc == [ls |-> [e |-> 0, tc |-> 0, tip |-> 0],   \* old_state / last loaded 
             single |-> FALSE, arg |-> 0, cont |-> "idle", oldE |-> 0, rfo |-> FALSE, adv |-> FALSE,
             head |-> <<>>]
 
-Init == /\ st = [e |-> 0, tc |-> Cardinality(Threads), tip |-> Cardinality(Threads)]
+Init == /\ st = [e |-> 0, tc |-> Cardinality(Threads \ InitPaused), tip |-> Cardinality(Threads \ InitPaused)]
         /\ orphP = <<>> /\ orphC = <<>>
         /\ pc = [t \in Threads |-> "idle"]
-        /\ loc = [t \in Threads |-> InitLoc]
+        /\ loc = [t \in Threads |-> [InitLoc EXCEPT !.paused = (t \in InitPaused)]]
         /\ live = Objs /\ freed = {} /\ refs = [t \in Threads |-> {}]
-        /\ reg = [t \in Threads |-> TRUE]
+        /\ reg = [t \in Threads |-> t \notin InitPaused]
         /\ budget = [t \in Threads |-> Budget[t]]
         /\ mustWait = [o \in Objs |-> {}]
         /\ dbl = FALSE
@@ -81,6 +91,11 @@ ExecPrev(l, single, de, newcur) ==
 
 \* advance_last_seen_epoch
 AdvLSE(l, single, e, newcur) == IF e = l.lse THEN <<l, {}>> ELSE ExecPrev(l, single, e, newcur)
+
+\* what a leaving thread does to catch up with the epoch e it leaves in
+UnregAdv(l, single, e) ==
+  IF UnregAdvancesBySeenEpoch THEN AdvLSE(l, single, e, {})
+  ELSE IF l.lsqe # e THEN ExecPrev(l, single, e, {}) ELSE <<l, {}>>
 
 DoFree(S) == /\ freed' = freed \cup S
              /\ dbl' = (dbl \/ (S \cap freed # {}))
@@ -144,7 +159,8 @@ Q2(t) == /\ pc[t] = "q2"
          /\ st' = [st EXCEPT !.tip = @ - 1]
          /\ IF st.tip > 1
               THEN /\ loc' = [loc EXCEPT ![t].qsec = 1] /\ pc' = [pc EXCEPT ![t] = "idle"]
-              ELSE /\ loc' = [loc EXCEPT ![t].oldSingle = Single(st), ![t].cont = "q4"]
+              ELSE /\ loc' = [loc EXCEPT ![t].oldSingle = IF OrphanModeFromClaimWord THEN Single(st) ELSE loc[t].single,
+                                          ![t].cont = "q4"]
                    /\ pc' = [pc EXCEPT ![t] = "o1"]
          /\ UNCHANGED <<orphP, orphC, live, freed, refs, reg, budget, mustWait, dbl>>
 
@@ -258,9 +274,12 @@ U1(t) == /\ pc[t] = "u1"
 \* epoch change in progress: decrement the thread count only
 U2a(t) == /\ pc[t] = "u2a"
           /\ IF st = loc[t].ls
-               THEN /\ st' = [st EXCEPT !.tc = @ - 1]
-                    /\ pc' = [pc EXCEPT ![t] = AfterUnreg(loc[t])]
-                    /\ loc' = [loc EXCEPT ![t] = Park(loc[t], AfterUnreg(loc[t]))]
+               THEN LET l1 == IF UnregInProgressKeepsIntervals THEN loc[t]
+                                   ELSE [loc[t] EXCEPT !.prev = loc[t].cur, !.cur = {}] IN
+                    /\ st' = [st EXCEPT !.tc = @ - 1]
+                    /\ pc' = [pc EXCEPT ![t] = AfterUnreg(l1)]
+                    /\ loc' = [loc EXCEPT ![t] = Park(l1, AfterUnreg(l1))]
+                    /\ IF UnregInProgressKeepsIntervals THEN NoFree ELSE DoFree(loc[t].prev)
                ELSE LET d == UDecide(t, [loc[t] EXCEPT !.ls = st])
                     IN loc' = [loc EXCEPT ![t] = d[1]] /\ pc' = [pc EXCEPT ![t] = d[2]] /\ UNCHANGED st
           /\ UNCHANGED <<orphP, orphC, live, freed, refs, reg, budget, mustWait, dbl>>
@@ -275,7 +294,7 @@ U3(t) == /\ pc[t] = "u3"
               ELSE LET new == IF l.rfo THEN (IF l.adv THEN [e |-> Nxt(s.e), tc |-> s.tc - 1, tip |-> s.tc - 1]
                                                       ELSE [e |-> s.e, tc |-> s.tc - 1, tip |-> s.tip - 1])
                                         ELSE [e |-> s.e, tc |-> s.tc - 1, tip |-> s.tip]
-                       r1 == AdvLSE(l, l.oldSingle, s.e, {})
+                       r1 == UnregAdv(l, l.oldSingle, s.e)
                        r2 == IF l.adv THEN ExecPrev(r1[1], l.oldSingle, Nxt(s.e), {}) ELSE <<r1[1], {}>>
                    IN /\ st' = new
                       /\ loc' = [loc EXCEPT ![t] = Park(r2[1], AfterUnreg(r2[1]))]
@@ -297,7 +316,7 @@ UC(t) == /\ pc[t] = "uc"
 UG(t) == /\ pc[t] = "ug"
          /\ IF st = loc[t].ls
               THEN LET s == st  l == loc[t]
-                       r1 == AdvLSE(l, l.oldSingle, s.e, {})
+                       r1 == UnregAdv(l, l.oldSingle, s.e)
                        r2 == ExecPrev(r1[1], l.oldSingle, Nxt(s.e), {})
                    IN /\ st' = [e |-> Nxt(s.e), tc |-> s.tc - 1, tip |-> s.tc - 1]
                       /\ loc' = [loc EXCEPT ![t] = Park(r2[1], AfterUnreg(r2[1]))]
